@@ -875,6 +875,25 @@ class Engine(object):
             raise Unsupported('del target')
 
     # real implementation of try with finally: separate so PathEnd skips the finally block
+    def st_ImportFrom(self, s, frame):
+        mods = self.c.env.get('__modules__', {})
+        if s.module not in mods:
+            raise Unsupported('import of %s inside the function (no model in __modules__)' % s.module)
+        m = mods[s.module]
+        if m is ImportError:
+            raise PyRaise(PExc(ImportError, tag=s.module))
+        for a in s.names:
+            frame.store(a.asname or a.name, self.getattr(m, a.name))
+
+    def st_Import(self, s, frame):
+        mods = self.c.env.get('__modules__', {})
+        for a in s.names:
+            if a.name not in mods:
+                raise Unsupported('import of %s inside the function (no model in __modules__)' % a.name)
+            if mods[a.name] is ImportError:
+                raise PyRaise(PExc(ImportError, tag=a.name))
+            frame.store(a.asname or a.name.split('.')[0], mods[a.name])
+
     def st_Try(self, s, frame):
         pending = None
         try:
@@ -1352,7 +1371,12 @@ class Engine(object):
         kwargs = {}
         for kw in e.keywords:
             if kw.arg is None:
-                raise Unsupported('**kwargs call')
+                d = self.ev(kw.value, frame)
+                d = d.val if isinstance(d, PDict) else d
+                if not isinstance(d, dict) or not all(isinstance(k_, str) for k_ in d):
+                    raise Unsupported('**kwargs call with a symbolic mapping')
+                kwargs.update(d)
+                continue
             kwargs[kw.arg] = self.ev(kw.value, frame)
         return self.call(fn, args, kwargs, e)
 
